@@ -31,6 +31,8 @@ THEOREMS = {
     'nint_of': ('nintOf', ['C02', 'C06']), 'extended_prec': ('extendedPrec', ['C18']),
     'rshift_expansion': ('rshiftExpansion', ['C14']), 'lshift_word': ('lshiftWord', ['C14']),
     'valid_rounding': ('valid_rounding', ['C20']), 'valid_overflow': ('valid_overflow', ['C20']),
+    # elementwise kernels of utils.py
+    'wrap_elem': ('wrapElem', ['C03', 'C01', 'C18']), 'clip_elem': ('clipElem', ['C01', 'C02', 'C05']), 'int_clip_elem': ('intClipElem', ['C02', 'C15']),
 }
 
 # theorems of Tie.lean that restate a property theorem about the generated rule: name -> (tie theorems used, properties)
@@ -92,6 +94,12 @@ def _grid_cmd(thm):
         return head + body(['for x in fmts'], 'Gen.%s %s' % (gen, a1), 'x.nint', '""', ys='x') + tail
     if thm == 'extended_prec':
         return head + body(['for x in fmts'], 'Gen.%s %s' % (gen, a1), 'decide (64 ≤ x.nword)', '""', ys='x') + tail
+    if thm == 'wrap_elem':
+        return head + body(['for x in fmts', 'for k in [(0 : Int), 1, -1, 2, 3, -4, 5, 127, 128, -129, 255, 256, 2 ^ 31, -(2 ^ 31) - 1, 2 ^ 63, 2 ^ 64 + 5, -(2 ^ 70) + 3]'],
+                           'Gen.wrapElem x.signed x.nword k', 'wrap x k', 's!" k={k}"', ys='x') + tail
+    if thm in ('clip_elem', 'int_clip_elem'):
+        return head + body(['for x in fmts', 'for k in [(0 : Int), 1, -1, 2, 3, -4, 5, 127, 128, -129, 255, 256, 2 ^ 63, -(2 ^ 70)]'],
+                           'Gen.%s k x.lo x.hi' % gen, 'sat x k', 's!" k={k}"', ys='x') + tail
     if thm in ('needs_pyint', 'mul_needs_pyint'):
         model = '_root_.Fxp.addNeedsPyInt' if thm == 'needs_pyint' else '_root_.Fxp.mulNeedsPyInt'
         return head + body(['for x in fmts', 'for y in fmts', 'for F in [(0 : Int), 1, 7, 31, 40, 62, 63, 64, 65]'],
